@@ -291,6 +291,17 @@ fn scenario(s: Scn) {
             }
         }
     }
+    // the clock did not move during the concurrent phase: a breaker that ends Open was opened (or kept Open
+    // with its retry time still ahead) at this instant, so a request now must be rejected
+    if fin == St::Open && !matches!(s.kind, Kind::RejectedProbeVsStale { .. }) {
+        if let Ok(e) = enter() {
+            found(
+                "open/request-admitted-before-retry-timeout-after-the-race",
+                format!("{name}: the breaker ended Open at this instant, yet the next request was admitted; events {ev:?}, current_state() now {:?}", st(breaker.current_state())),
+            );
+            e.exit();
+        }
+    }
     kept.lock().unwrap().clear();
     clear_everything();
 }
